@@ -247,6 +247,12 @@ func c05(c *eng.Ctx) {
 			}
 		}
 	}
+	// one dimension beyond 2^15 (a second default precinct), with and without decomposition
+	for gi, g := range [][2]int{{40000, 2}, {2, 33000}, {32769, 1}, {65535, 1}} {
+		for _, nl := range []int{0, 1} {
+			jobs = append(jobs, c05Case{TS: gi % 2, Mode: 0, W: g[0], H: g[1], BA: 8, BS: 8, SPP: 1, Rate: 20, RateLevels: ladders[1], NumLayers: 1, Append: true, NumLevels: nl, AllowMCT: true, K: 1, Frames: 1})
+		}
+	}
 	// contents at the edges of the coefficient range: saturated two-colour lattices (coefficients beyond a band's nominal
 	// bit depth after the colour transform), flat images with isolated +-1 samples (the largest zero-bit-plane counts) and
 	// the same next to a full-scale sample (the largest pass counts), default and layered parameters
